@@ -119,6 +119,11 @@ func (s *monSink) result(op byte) error {
 		if !started && r.faultRNG.Intn(100) < r.writeFaultPct {
 			return errors.New("injected write fault")
 		}
+		// pre-trigger write faults (C03's one-sided class): the recording is given up, so
+		// it may be shorter than the rule says, but never longer
+		if started && r.preFaultPct > 0 && r.faultRNG.Intn(100) < r.preFaultPct {
+			return errors.New("injected pre-trigger write fault")
+		}
 	}
 	if s.which == sinkMotion && r.cur != nil {
 		if op == opCheck && r.cur.CheckFail {
@@ -184,7 +189,10 @@ type fsmRun struct {
 	writeFaultPct int
 	// probability (percent) that StopRecording on the motion sink reports an error
 	stopFaultPct int
-	faultRNG     *vRNG
+	// probability (percent) that a WriteFrame of the pre-trigger path (the step in which
+	// the recording started) fails
+	preFaultPct int
+	faultRNG    *vRNG
 	keepBg       bool
 	now          time.Time
 	seq          int
@@ -371,6 +379,7 @@ type recording struct {
 	StopStep  int   // step of the StopRecording, -1 if still open at the end
 	StopErr   bool
 	WriteErr  bool // some write inside returned an error
+	PreFault  bool // a write in the start step (pre-trigger frames or the trigger frame) returned an error
 }
 
 // protocolScan walks one sink's operations, returns the recordings and the
@@ -404,6 +413,9 @@ func protocolScan(steps []stepRec, sink int) (recs []recording, viol []string) {
 				}
 				if op.Err {
 					cur.WriteErr = true
+					if si == cur.StartStep {
+						cur.PreFault = true
+					}
 				}
 			case opStop:
 				if open {
